@@ -58,6 +58,22 @@ func crosstalk(c *rig.Ctx) {
 		}
 		// aggressor actions never touch the victim's registers
 		aggress := func() {
+			if r.Chance(1, 4) {
+				// the victim's own registers that have nothing to do with its frequency: duty and
+				// length data, envelope (DAC staying on), output level
+				switch victim {
+				case 0:
+					m.Mem.Write(r.Pick16([]uint16{0xff11, 0xff12}), 0xf0|r.U8()&0x07|r.U8()&0xc0)
+				case 1:
+					m.Mem.Write(r.Pick16([]uint16{0xff16, 0xff17}), 0xf0|r.U8()&0x07|r.U8()&0xc0)
+				case 2:
+					m.Mem.Write(r.Pick16([]uint16{0xff1b, 0xff1c}), r.U8())
+				case 3:
+					m.Mem.Write(r.Pick16([]uint16{0xff20, 0xff21}), 0xf0|r.U8()&0x07)
+				}
+				c.Count("crosstalk_neutral_stores_to_the_victim", 1)
+				return
+			}
 			for {
 				a := r.Intn(4)
 				if a == victim {
@@ -197,6 +213,7 @@ func crosstalk(c *rig.Ctx) {
 	})
 
 	retune(c)
+	noiseRetrigger(c)
 }
 
 // retune: the frequency registers are rewritten while the channel plays, without a new trigger
@@ -289,5 +306,75 @@ func retune(c *rig.Ctx) {
 		}
 		c.Count("retune_cases", 1)
 		c.Case(rig.Hash(uint64(i), uint64(f0), uint64(f1)))
+	})
+}
+
+// noiseRetrigger: channel 4 is re-triggered while it is already playing, after a change of the
+// register width, from every state its shift register passes through in 6000 shifts: the
+// sequence after the trigger must be the maximal one of the new width (not stuck, not short).
+func noiseRetrigger(c *rig.Ctx) {
+	c.Require("noise_retrigger_cases")
+	c.Part("noise-retrigger", 30, func(i int64, r *rig.Rng) {
+		for d := int(i) * 100; d < int(i+1)*100; d++ {
+			to7 := d%2 == 0
+			m := newMachine()
+			m.Mem.Write(0xff21, 0xf0)
+			first, second := uint8(0x00), uint8(0x08)
+			if !to7 {
+				first, second = 0x08, 0x00
+			}
+			m.Mem.Write(0xff22, first)
+			m.Mem.Write(0xff23, 0x80)
+			for k := 0; k < d; k++ {
+				m.Audio.EndMachineCycle()
+			}
+			m.Mem.Write(0xff22, second)
+			m.Mem.Write(0xff23, 0x80)
+			width, period := 15, 32767
+			if to7 {
+				width, period = 7, 127
+			}
+			var bits []uint8
+			prev := m.Audio.XWaveState().LFSR
+			for k := 0; k < 400 && len(bits) < 300; k++ {
+				m.Audio.EndMachineCycle()
+				cur := m.Audio.XWaveState().LFSR
+				// two shifts per machine cycle at this setting: replay the reference to count them
+				x := prev
+				for n := 0; n < 3 && x != cur; n++ {
+					fb := (x ^ x>>1) & 1
+					x = x>>1 | fb<<14
+					if second&8 != 0 {
+						x = x&^(1<<6) | fb<<6
+					}
+					bits = append(bits, uint8(x&1))
+				}
+				prev = cur
+			}
+			if len(bits) < 200 {
+				c.Violate("noise-retrigger-stuck", fmt.Sprintf("channel 4 playing with NR43=%02X for %d cycles, then NR43=%02X and a new trigger: only %d shifts in 400 machine cycles (800 expected)", first, d, second, len(bits)), nil)
+				return
+			}
+			// no period shorter than the maximal one
+			lim := period
+			if lim > 140 {
+				lim = 140
+			}
+			for q := 1; q < lim; q++ {
+				same := true
+				for k := 0; k+q < len(bits) && k < 150; k++ {
+					if bits[k] != bits[k+q] {
+						same = false
+						break
+					}
+				}
+				if same {
+					c.Violate(fmt.Sprintf("noise-retrigger-sequence-%dbit", width), fmt.Sprintf("channel 4 playing with NR43=%02X for %d cycles, then NR43=%02X and a new trigger: the output repeats with period %d (maximal sequence: %d)", first, d, second, q, period), nil)
+					return
+				}
+			}
+			c.Count("noise_retrigger_cases", 1)
+		}
+		c.Exact(1)
 	})
 }
